@@ -133,12 +133,15 @@ impl Hypergeometric {
         } else {
             let k = x;
             let ln_denom = ln_binomial(self.population, self.draws);
-            ((k + 1)..=self.max()).fold(0.0, |acc, i| {
+            let sf = ((k + 1)..=self.max()).fold(0.0, |acc, i| {
                 acc + (ln_binomial(self.successes, i)
                     + ln_binomial(self.population - self.successes, self.draws - i)
                     - ln_denom)
                     .exp()
-            })
+            });
+            // the summands are rounded, the sum of a (nearly) complete
+            // distribution can exceed 1 by a few ulp
+            f64::min(sf, 1.0)
         }
     }
 }
